@@ -21,6 +21,8 @@ import (
 	"fmt"
 	"io"
 	"strings"
+	"unicode"
+	"unicode/utf16"
 )
 
 type token int
@@ -770,12 +772,53 @@ func (t *tokenizer) readEscapedChar(isClob bool) (rune, error) {
 		if isClob {
 			return 0, t.invalidChar('u')
 		}
-		return t.readHexEscapeSeq(4)
+		r, err := t.readHexEscapeSeq(4)
+		if err != nil {
+			return 0, err
+		}
+		if utf16.IsSurrogate(r) {
+			return t.readSurrogatePair(r)
+		}
+		return r, nil
 	case 'x':
 		return t.readHexEscapeSeq(2)
 	}
 
 	return 0, &SyntaxError{fmt.Sprintf("bad escape sequence '\\%c'", c), t.pos - 2}
+}
+
+// ReadSurrogatePair completes a supplementary code point that is written as a UTF-16
+// surrogate pair of \u escapes (e.g. "\uD83D\uDE00"). If no low surrogate escape
+// follows, the first escape is returned unchanged.
+func (t *tokenizer) readSurrogatePair(high rune) (rune, error) {
+	cs, err := t.peekN(6)
+	if err != nil {
+		if err == io.EOF {
+			return high, nil
+		}
+		return 0, err
+	}
+	if cs[0] != '\\' || cs[1] != 'u' {
+		return high, nil
+	}
+
+	low := rune(0)
+	for _, c := range cs[2:] {
+		d, err := t.fromHex(c)
+		if err != nil {
+			return high, nil
+		}
+		low = (low << 4) | rune(d)
+	}
+
+	r := utf16.DecodeRune(high, low)
+	if r == unicode.ReplacementChar {
+		return high, nil
+	}
+	if err := t.skipN(6); err != nil {
+		return 0, err
+	}
+	return r, nil
 }
 
 func (t *tokenizer) readHexEscapeSeq(length int) (rune, error) {
